@@ -3,6 +3,8 @@
 from __future__ import annotations
 
 import ast
+import keyword
+import re
 from fractions import Fraction
 from typing import Dict, Iterable, Optional
 
@@ -21,8 +23,91 @@ def S(x) -> str:
     return "".join(ch for ch in t if ch not in " \n\t()")
 
 
-def has(node, fragment: str) -> bool:
-    return S(fragment) in S(node)
+_TOKEN = re.compile(
+    r"[A-Za-z_]\w*|\d+(?:\.\d*)?(?:[eE][+-]?\d+)?|\.\d+|'(?:[^'\\]|\\.)*'|\"(?:[^\"\\]|\\.)*\"|\*\*=?|//=?|==|!=|<=|>=|->|\+=|-=|\*=|/=|[-+*/%=<>\[\]{}.,:;@&|^~]")
+
+
+def toks(text: str) -> list:
+    """Lexical tokens with whitespace and parentheses dropped; string quotes normalised."""
+    out = []
+    for t in _TOKEN.findall(text):
+        if len(t) >= 2 and t[0] == '"' and t[-1] == '"' and "'" not in t:
+            t = "'" + t[1:-1] + "'"
+        out.append(t)
+    return out
+
+
+def local_names(scope) -> set:
+    """Names a function (or any node) binds: parameters, assignment/loop/comprehension targets."""
+    out = set()
+    for n in ast.walk(scope):
+        if isinstance(n, ast.Name) and isinstance(n.ctx, ast.Store):
+            out.add(n.id)
+        elif isinstance(n, ast.arg):
+            out.add(n.arg)
+    out -= {"self", "cls"}
+    return out
+
+
+_IDENT = re.compile(r"[A-Za-z_]\w*$")
+
+
+def has(node, fragment: str, scope=None) -> bool:
+    """Does the (unparsed) node contain `fragment`, token by token?
+
+    Whitespace, parentheses and quote style are ignored.  A *local variable* of the
+    scope that the fragment spells differently still matches, provided the
+    fragment's spelling no longer occurs anywhere in the scope and the mapping is a
+    consistent bijection -- so a behaviour-preserving rename of a local stays silent,
+    while attributes, globals, literals and names that do exist must match exactly."""
+    text = node if isinstance(node, str) else ast.unparse(node)
+    tt = toks(text)
+    pt = toks(fragment)
+    if not pt:
+        return True
+    sc = scope if scope is not None else (node if not isinstance(node, str) else None)
+    locs = local_names(sc) if sc is not None else set()
+    present = set(toks(ast.unparse(sc))) if sc is not None else set(tt)
+    pat_idents = {t for t in pt if _IDENT.match(t)}
+    n, m = len(tt), len(pt)
+    for i in range(0, n - m + 1):
+        fwd, bwd = {}, {}
+        ok = True
+        for j in range(m):
+            p_, t_ = pt[j], tt[i + j]
+            if p_ == t_:
+                if _IDENT.match(p_):
+                    if fwd.get(p_, t_) != t_ or bwd.get(t_, p_) != p_:
+                        ok = False
+                        break
+                    fwd[p_] = t_
+                    bwd[t_] = p_
+                continue
+            if not (_IDENT.match(p_) and _IDENT.match(t_)) or keyword.iskeyword(p_) or keyword.iskeyword(t_):
+                ok = False
+                break
+            prev_p = pt[j - 1] if j else ""
+            prev_t = tt[i + j - 1] if i + j else ""
+            if prev_p == "." or prev_t == ".":  # attribute names are part of the interface
+                ok = False
+                break
+            if p_ in present or t_ not in locs or t_ in pat_idents:
+                ok = False
+                break
+            if fwd.get(p_, t_) != t_ or bwd.get(t_, p_) != p_:
+                ok = False
+                break
+            fwd[p_] = t_
+            bwd[t_] = p_
+        if ok:
+            return True
+    return False
+
+
+def same(node, fragment: str, scope=None) -> bool:
+    """The whole node equals the fragment (same token discipline as `has`)."""
+    text = node if isinstance(node, str) else ast.unparse(node)
+    return len(toks(text)) == len(toks(fragment)) and has(node, fragment, scope=scope)
 
 
 def dotted(node) -> Optional[str]:
